@@ -170,6 +170,7 @@ package datastore
 //@   let npaths = len(req.GetPath())
 //@   ensures intended_state_is_refused: intendedState ==> r0 != nil && noReader()
 //@   ensures unknown_encoding_is_refused: !knownEncoding(enc) ==> r0 != nil && noReader()
+//@   loop 0 invariant every_path_so_far_is_valid [C14]: err == nil
 //@   ensures invalid_path_is_refused: called(validatePath) && callres(validatePath) != nil ==> r0 != nil && noReader()
 //@   ensures string_reader: called(handleGetDataUpdatesSTRING) ==> enc == sdcpb.Encoding_STRING && !called(handleGetDataUpdatesJSON) && !called(handleGetDataUpdatesPROTO)
 //@   ensures proto_reader: called(handleGetDataUpdatesPROTO) ==> enc == sdcpb.Encoding_PROTO && !called(handleGetDataUpdatesJSON) && !called(handleGetDataUpdatesSTRING)
